@@ -124,6 +124,9 @@ func init() {
 			ruleProtoMapEntry(c)
 			ruleClearBeforeRead(c)
 			ruleDispatchKnown(c)
+			ruleDelegateNonEmpty(c)
+			ruleViaRegistry(c)
+			rulePointerWrapper(c)
 			rulePtime(c)
 			ruleOverlayKey(c)
 			ruleEntryPresence(c)
